@@ -98,6 +98,11 @@ func (c Compressor) DecompressWithLength(source io.Reader, dest io.Writer) error
 }
 
 func decompress(source []byte) (dest []byte, err error) {
+	// an empty message compresses to a block made of a single zero token (no literals, no match); the lz4 library
+	// refuses to decode such a block, so handle it here, as DecompressWithLength does for its own format
+	if len(source) == 1 && source[0] == 0 {
+		return []byte{}, nil
+	}
 	// try destination buffers of increased length to avoid allocating too much space, starting with twice the
 	// compressed length and up to 256 times the compressed length (an LZ4 block cannot expand by more than 255:1)
 	compressedLength := len(source)
